@@ -156,6 +156,7 @@ func c14(c *core.Check) {
 	c.Analysed["exported_entries"] = len(exported)
 	c.Min("no-input-panic", 3)
 	c14trie(c)
+	c14noFloatKeys(c)
 }
 
 // newPathTokenTotal: the panic in newPathToken's default arm is unreachable: every call passes a constant pathType that
